@@ -213,6 +213,8 @@ def shard_c12(spec, acc):
 
 def random_range(rng, max_days=1100):
     d = dt.date(1990, 1, 1) + dt.timedelta(days=rng.randint(0, 25500))
+    if rng.random() < 0.2:
+        d = dt.date(1950, 1, 1) + dt.timedelta(days=rng.randint(0, 7300))        # long histories: before the Unix epoch
     n = rng.choice([0, 0, 1, 2, 5, 9, 30, 90, 365, rng.randint(0, max_days)])
     t1 = dt.time(rng.randint(0, 23), rng.choice([0, 15, 30, 59]), rng.choice([0, 0, 59, 15]),
                  rng.choice([0, 0, 0, 250000, 1, 999999]))
